@@ -4,6 +4,7 @@
    [usage_ok]) in Spec/CoerceSpec.v, the model in Exec/CoerceModel.v. *)
 From PyGql Require Import Spec.CoerceSpec Proofs.CoerceProofs Proofs.CoerceValidBridge.
 From PyGql Require Proofs.DirIfCoercion.
+From PyGql Require Import Proofs.CoerceCheck.
 From Coq Require Import ZArith.
 
 (* Variable route: whatever coerce_value accepts is a legitimate resolver-side
@@ -397,6 +398,37 @@ Theorem C07_validated25_request_sound :
 Proof. exact validated25_request_sound. Qed.
 Print Assumptions C07_validated25_request_sound.
 
+(* ... and the arguments of a directive of a validated request (written on a
+   node or on the definition of the operation or of a reachable fragment):
+   what info.get_directive_arguments / _skip_selection receive conforms *)
+Theorem C07_exec_directive_sound : forall s defs vds dname ds raw kw,
+  schema_wf s -> args_wf s defs ->
+  (forall d, find_directive dname ds = Some d -> usage_ok s vds defs (d_args d)) ->
+  exec_directive_args s defs vds dname ds raw = Ok (Some kw) ->
+  NoDup (map fst kw)
+  /\ (forall k v, In (k, v) kw -> exists a, In a defs /\ f_py a = k /\ conforms s (f_ty a) v)
+  /\ (forall a, In a defs -> f_default a <> None \/ ity_nn (f_ty a) = true -> In (f_py a) (map fst kw)).
+Proof. exact exec_directive_sound. Qed.
+Print Assumptions C07_exec_directive_sound.
+
+Theorem C07_validated_directive_args_sound :
+  forall s s' d op dr dd defs dname ds raw kw,
+  schema_agree s s' -> schema_wf s -> schema_closed s -> fields_unique s ->
+  NoDup (VP.op_key_list d) -> VL.spec_unique_variable_names d -> VL.spec_known_directives s' d ->
+  VT.wf_var_types s' d ->
+  R.r24_variables_in_allowed_position s' d = Ok [] ->
+  In op (doc_defs d) -> VS.is_operation op ->
+  find_directive dname ds = Some dr -> directive_in_operation s' d op dr ->
+  alookup (n_val (d_name dr)) (V.s_dirs s') = Some dd ->
+  V.sd_args dd = map sarg_of defs -> NoDup (map f_name defs) ->
+  args_wf s defs -> (forall d0, In d0 defs -> bound s (f_ty d0)) ->
+  exec_directive_args s defs (VL.op_vars op) dname ds raw = Ok (Some kw) ->
+  NoDup (map fst kw)
+  /\ (forall k v, In (k, v) kw -> exists a, In a defs /\ f_py a = k /\ conforms s (f_ty a) v)
+  /\ (forall a, In a defs -> f_default a <> None \/ ity_nn (f_ty a) = true -> In (f_py a) (map fst kw)).
+Proof. exact validated_directive_args_sound. Qed.
+Print Assumptions C07_validated_directive_args_sound.
+
 (* usage_ok is satisfiable by the ordinary cases: a list variable for a list
    argument, a stricter variable inside an object literal *)
 Local Open Scope string_scope.
@@ -414,6 +446,47 @@ Example C07_usage_ok_example :
   usage_ok s vds defs call.
 Proof. exact usage_ok_example. Qed.
 Print Assumptions C07_usage_ok_example.
+
+(* ---- the executable checkers the correspondence run applies to every
+   generated schema / argument list and to every value the implementation
+   handed out are sound for the judgements of the Spec ---- *)
+Theorem C07_checkers_sound :
+  (forall s v t, conformsb s t v = true -> conforms s t v)
+  /\ (forall s, schema_okb s = true ->
+                schema_wf s /\ schema_closed s /\ schema_inputs s /\ fields_unique s)
+  /\ (forall s defs, args_okb s defs = true ->
+                     args_wf s defs /\ (forall d, In d defs -> usable s (f_ty d))
+                     /\ NoDup (map f_name defs) /\ NoDup (map f_py defs)).
+Proof.
+  split; [exact conformsb_sound|split; [exact schema_okb_sound|exact args_okb_sound]].
+Qed.
+Print Assumptions C07_checkers_sound.
+
+(* ---- list-of-list and non-null-inside-list corners, stated explicitly
+   (instances of the general theorems above) ---- *)
+Theorem C07_single_value_wraps_every_level : forall s j t v n1 n2,
+  plain_json j = true -> coerce_value s j t = Ok v ->
+  coerce_value s j (IList n1 (IList n2 t)) = Ok (PList [PList [v]]).
+Proof. exact single_value_wraps_every_level. Qed.
+Print Assumptions C07_single_value_wraps_every_level.
+
+Theorem C07_single_literal_wraps_every_level : forall s vs l t v n1 n2,
+  literal_plain l = true -> value_from_ast s vs l t = Ok v ->
+  value_from_ast s vs l (IList n1 (IList n2 t)) = Ok (PList [PList [v]]).
+Proof. exact single_literal_wraps_every_level. Qed.
+Print Assumptions C07_single_literal_wraps_every_level.
+
+Theorem C07_list_corners : forall s n,
+  coerce_value s JNull (IList false (INamed true n)) = Ok PNone
+  /\ coerce_value s (JList [JNull; JNull]) (IList true (INamed false n)) = Ok (PList [PNone; PNone])
+  /\ coerce_value s (JList []) (IList true (IList true (INamed true n))) = Ok (PList [])
+  /\ coerce_value s (JList [JList []]) (IList true (IList true (INamed true n))) = Ok (PList [PList []])
+  /\ (forall nn l v, In JNull l -> coerce_value s (JList l) (IList nn (INamed true n)) <> Ok v)
+  /\ (forall nn nn' l l' v, In (JList l') l -> In JNull l' ->
+        coerce_value s (JList l) (IList nn (IList nn' (INamed true n))) <> Ok v)
+  /\ (forall v, coerce_value s JNull (IList true (INamed false n)) <> Ok v).
+Proof. exact list_corners. Qed.
+Print Assumptions C07_list_corners.
 
 (* ---- non-vacuity: a recursive input type with defaults ---- *)
 Local Open Scope string_scope.
